@@ -219,7 +219,7 @@ def queries(tier):
     quick = tier == "quick"
     qs = []
     if quick:
-        plan = [(None, "every2"), (0, "always"), (1, "every2"), (2, "always"), (3, "always"), (4, "every3"), (5, "every2"), (8, "always")]
+        plan = [(None, "every2"), (0, "always"), (1, "every2"), (2, "always"), (3, "always"), (4, "every2"), (5, "every2"), (8, "always")]
     else:
         plan = [(L, pn) for L in [None] + list(range(10)) for pn in ("always", "every2", "every3")]
     for L, pn in plan:
@@ -229,7 +229,8 @@ def queries(tier):
         ff = (lambda L=L, rt=rt: TxFramingHarness(length=L, rt_data=rt))
         nw = ff().nwords
         qs.append(Query(f"bmc_{tag}_{pn}", ff, nw * fac + 6, layer={"ready": _pat(pn)}, split=False, timeout=300,
-                        covers=None if (rt or L is None) else ["done", "stalled_done", "rt_header"],
+                        covers=(["done", "rt_header"] + (["rt_good", "rt_payload"] if (rt and L is not None) else []))
+                        if pn == "always" else ["done", "stalled_done", "rt_header"],
                         desc=f"{tag}: ready pattern '{pn}' (concrete layer), header and payload symbolic"))
     if not quick:
         for L in (0, 3, 8):
